@@ -595,5 +595,19 @@ def bld_stream(ctx, which, flags_choices, n_quick, n_thorough, **kw):
                            "the in-progress count per worker are compared with the settled model (extracted Srv.v + Builder.v)" % n)
     st.per_shard = 2   # a scenario takes about a second of real time
     st.prepare = lambda c: bld_annotate([c])[0]
+    def stats(cases, impl, model):
+        ops, chains, rts = {}, {}, {"a": 0, "t": 0}
+        for c in cases:
+            head = c.split(";exp=")[0]
+            f = dict(kv.split("=", 1) for kv in head.split(";"))
+            chains[f["B"]] = chains.get(f["B"], 0) + 1
+            rts[f.get("S", "a")] = rts.get(f.get("S", "a"), 0) + 1
+            for o in f["ops"].split():
+                ops[o[0]] = ops.get(o[0], 0) + 1
+        retried = sum(1 for i in impl if " | retries=" in i and not i.endswith("retries=0"))
+        served = sum(len(x[1]) for m in model for x in (bld_parse_trace(m) or []))
+        return {"ops_by_kind": ops, "builder_chains": chains, "runtime_actix_vs_tokio": rts, "service_calls_in_model_runs": served,
+                "scenarios_needing_a_longer_quiet_period": retried}
+    st.stats = stats
     st.shrink_budget = 10   # a failing end-to-end scenario can take many seconds
     return st
